@@ -199,6 +199,13 @@ def check_C15(tier, seed):
     og = ["-optimize-grammar"]
     for g in cores.random_class_merges(seed, 16 if tier == "quick" else 80) + [x for x in cores.opt_catalogue() if x["name"].startswith(("og_sharedcls", "og_merge0", "og_merge1"))]:
         cases.append(rel_case(g, ["C15"], og, og + ["-optimize-basic-latin"], suffix="_g"))
+    # the same pair under -optimize-parser (the property holds for every other flag set): what the builder emits for a
+    # class may depend on both flags together; case-insensitive classes (the input rune is folded before the lists
+    # and the table are consulted), every second one in the quick tier
+    op = ["-optimize-parser"]
+    icls = [g for g in cores.class_catalogue() if '"i": true' in json.dumps(g)]
+    for g in (icls[::2] if tier == "quick" else icls):
+        cases.append(rel_case(g, ["C15"], op, op + ["-optimize-basic-latin"], suffix="_p"))
     cases.append(rel_case(cat[0], ["TWIN"], [], ["-optimize-basic-latin"], suffix="_twin"))
     catcheck.prepare(w, cases)
     agg = catcheck.explore(w, rep, cases[:-1], "C15", r"Harness_C15$", N, tmo, "rel", seed=seed,
@@ -269,7 +276,7 @@ def run_ref_property(prop, tier, seed, cat, hprops, Nq, Nt, tq=60, tt=900, flags
 def check_C12(tier, seed):
     lrs = [g for g in cores.lr_catalogue() if not gspec.uses_state(g)] + cores.random_lr(seed, 6 if tier == "quick" else 60)
     return run_ref_property("C12", tier, seed, cores.fail_catalogue() + cores.pair_core()[::4], ["C12"], 4, 6, tq=120, tt=1800, rnd=(24, 200, ("throw",)),
-                            extra=[(g, "lr") for g in lrs],
+                            extra=[(g, "lr") for g in lrs] + ([(g, "opt") for g in cores.fail_catalogue()] if tier == "quick" else []),
                             lemmas=["FailLit", "FailClass", "FailAny", "FailNot", "FailAnd"], lemma_n=(2, 3))
 
 
@@ -1144,6 +1151,16 @@ def check_C20(tier, seed):
             seps = seps[::max(1, len(seps) // 5)][:5]
         maxseps = max(maxseps, len(seps))
         lay.append((g["name"], text, seps))
+    # rule terminators (the two newlines behind the initializer and behind each rule) as holes
+    term, maxterms = [], 1
+    for g in [g for g in cores.composites() if g["name"] in ("c_multirule", "c_display") and in_bootstrap_subset(g)]:
+        g = json.loads(json.dumps(g))
+        text, g2 = gspec.print_grammar_pos(g, "p")
+        tb = text.encode("utf-8")
+        ends = [r["_off"] - 2 for r in g2["rules"]] + [len(tb) - 2]
+        assert all(tb[o:o + 2] == b"\n\n" for o in ends)
+        maxterms = max(maxterms, len(ends))
+        term.append((g["name"], text, ends))
     hole_len = 2 if quick else 3
     src = ["package main\n\ntype c20Case struct {\n\tname, text string\n}\n\nvar c20Cases = []c20Case{\n"]
     for name, text in rt:
@@ -1152,20 +1169,27 @@ def check_C20(tier, seed):
     for name, text, seps in lay:
         src.append("\t{%s, []byte(%s), []int{%s}},\n" % (go_str_lit(name), go_str_lit(text), ", ".join(str(s) for s in seps)))
     src.append("}\n\nconst c20MaxSeps = %d\nconst c20HoleLen = %d\n" % (maxseps, hole_len))
+    src.append("\nvar c20Term = []c20Lay{\n")
+    for name, text, ends in term:
+        src.append("\t{%s, []byte(%s), []int{%s}},\n" % (go_str_lit(name), go_str_lit(text), ", ".join(str(s) for s in ends)))
+    src.append("}\n\nconst c20MaxTerms = %d\n" % maxterms)
+    term_args = [ci * maxterms + si for ci, (_, _, ends) in enumerate(term) for si in range(len(ends))]
     # the C03 hole file provides refEscape; its data tables must exist
-    stub03 = "package main\n\ntype c03Lay struct {\n\tname string\n\ttext []byte\n\tseps []int\n\twant any\n}\n\nvar c03Layout []c03Lay\n\nconst c03MaxSeps = 1\nconst c03HoleLen = 1\n"
+    stub03 = "package main\n\ntype c03Lay struct {\n\tname string\n\ttext []byte\n\tseps []int\n\twant any\n}\n\nvar c03Layout []c03Lay\n\nvar c03Term []c03Lay\n\nconst c03MaxSeps = 1\nconst c03MaxTerms = 1\nconst c03HoleLen = 1\n"
     files = {"zz_verif_main.go": open(os.path.join(VERIF, "harness", "main_common.go")).read(),
              "zz_verif_dump.go": open(os.path.join(VERIF, "harness", "astdump_main.go")).read(),
              "zz_verif_c03h.go": open(os.path.join(VERIF, "harness", "c03_holes_main.go")).read(),
              "zz_verif_c03stub.go": stub03,
              "zz_verif_c20.go": open(os.path.join(VERIF, "harness", "c20_main.go")).read(),
              "zz_verif_c20data.go": "".join(src)}
-    names = ["Harness_C20rt", "Harness_C20layout", "Harness_C20escape", "Harness_C20class", "Harness_C20op", "Harness_C20free"]
+    names = ["Harness_C20rt", "Harness_C20layout", "Harness_C20escape", "Harness_C20class", "Harness_C20op", "Harness_C20free", "Harness_C20term"]
     ov = RepoOverlay(w, ".", "main", files, names)
     tmo = 120 if quick else 900
     agg = overlay_explore(rep, "C20", ov, "Harness_C20rt$", 0, len(rt) - 1, tmo, "c20_roundtrip", sample_every=1, max_triage=4, max_steps=20_000_000 if quick else 400_000_000)
     lay_args = [ci * maxseps + si for ci, (_, _, seps) in enumerate(lay) for si in range(len(seps))]
     agg = merge_agg(agg, overlay_explore(rep, "C20", ov, "Harness_C20layout$", 0, 0, tmo, "c20_layout", sample_every=23, max_triage=3, args=set(lay_args)))
+    if term_args:
+        agg = merge_agg(agg, overlay_explore(rep, "C20", ov, "Harness_C20term$", 0, 0, tmo, "c20_term", sample_every=23, max_triage=3, args=set(term_args)))
     esc_args = [q * 16 + n for q in (0, 1) for n in ((1, 3) if quick else (1, 3, 5, 9))]
     agg = merge_agg(agg, overlay_explore(rep, "C20", ov, "Harness_C20escape$", 0, 0, tmo, "c20_escape", sample_every=23, max_triage=3, args=set(esc_args)))
     agg = merge_agg(agg, overlay_explore(rep, "C20", ov, "Harness_C20class$", 0, 3 if quick else 4, tmo, "c20_class", sample_every=23, max_triage=3))
@@ -1367,6 +1391,7 @@ def check_C18(tier, seed):
     cat = cores.state_catalogue()[:: (4 if quick else 1)] + cores.composites()[: (3 if quick else 10)] + cores.context_catalogue()[:2] + cores.throw_catalogue()[:2]
     cat = cat + [g for g in cores.throw_catalogue() if g["name"] in ("tr_rcvchoice", "tr_lblshare")]
     cat = cat + [g for g in cores.composites() if g["name"] in ("c_longclass",) and g not in cat]
+    cat = cat + [g for g in cores.state_catalogue() if g["name"] in ("st_throw_2fail",) and g not in cat]
     cat = cat + rnd_cat(tier, seed, 4, 40, ("state", "throw"))
     lr = cores.lr_catalogue()[: (1 if quick else 3)]
     rep = Report("C18", tier, seed, "other")
